@@ -310,7 +310,9 @@ Fixpoint run (legacy : bool) (n : nat) (f : nat -> answer) (s : st) : st :=
    32 ACKs a mute only from the third attempt on               "flaky"
    64 DUB reply with a wrong checksum
    128 no preamble (reply starts at the separator)
-   256 silent on DUB (still ACKs mute) *)
+   256 silent on DUB (still ACKs mute)
+   512 sits behind a proxy: neither answers DUBs nor ACKs mutes while a proxy of the population is un-muted
+   1024 is a proxy (otherwise an ordinary responder) *)
 Record resp := mkP { p_uid : N; p_kind : N; p_muted : bool; p_cnt : N }.
 Definition has (r : resp) (bit : N) : bool := N.testbit (p_kind r) bit.
 
@@ -339,8 +341,11 @@ Fixpoint or_bytes (a b : list N) : list N :=
   | x :: a', y :: b' => N.lor x y :: or_bytes a' b'
   end.
 
+Definition hidden (pop : list resp) (r : resp) : bool :=
+  has r 9 && existsb (fun p => has p 10 && negb (p_muted p)) pop.
+
 Definition line_branch (pop : list resp) (lo hi : N) : list N :=
-  fold_left (fun acc r => if responds r lo hi then or_bytes acc (resp_frame r) else acc) pop [].
+  fold_left (fun acc r => if responds r lo hi && negb (hidden pop r) then or_bytes acc (resp_frame r) else acc) pop [].
 
 Definition mute_one (u : N) (r : resp) : bool * resp :=
   if negb (p_uid r =? u) then (false, r)
@@ -350,12 +355,13 @@ Definition mute_one (u : N) (r : resp) : bool * resp :=
     if 2 <? c then (true, mkP (p_uid r) (p_kind r) true c) else (false, mkP (p_uid r) (p_kind r) (p_muted r) c)
   else (true, mkP (p_uid r) (p_kind r) true (p_cnt r)).
 
-Fixpoint line_mute (pop : list resp) (u : N) : bool * list resp :=
+Fixpoint line_mute_in (all pop : list resp) (u : N) : bool * list resp :=
   match pop with
   | [] => (false, [])
-  | r :: t => let '(a, r') := mute_one u r in
-              let '(b, t') := line_mute t u in (a || b, r' :: t')
+  | r :: t => let '(a, r') := if hidden all r then (false, r) else mute_one u r in
+              let '(b, t') := line_mute_in all t u in (a || b, r' :: t')
   end.
+Definition line_mute (pop : list resp) (u : N) : bool * list resp := line_mute_in pop pop u.
 
 Definition line_unmute (pop : list resp) : list resp :=
   map (fun r => mkP (p_uid r) (p_kind r) false (p_cnt r)) pop.
